@@ -106,10 +106,13 @@ pub fn start_live(start: &Start) -> Result<(Live, Model), Failure> {
     }
 }
 
+/// Wildcard for callers that know the field name but not the text a codec writes for the value.
+pub const ANY_VALUE: &str = "\u{1}<any value>";
+
 /// Does `x` scan as exactly one field `name` with value `value` (no comments, no blank lines)?
 fn is_single_field(x: &str, name: &str, value: &str) -> bool {
     let s = scan(x);
-    s.errors.is_empty() && s.comments.is_empty() && s.paras.len() == 1 && s.paras[0].fields.len() == 1 && s.paras[0].fields[0].name == name && s.paras[0].fields[0].value == value
+    s.errors.is_empty() && s.comments.is_empty() && s.paras.len() == 1 && s.paras[0].fields.len() == 1 && s.paras[0].fields[0].name == name && (value == ANY_VALUE || s.paras[0].fields[0].value == value)
         && !x.contains("\n\n") && !x.starts_with('\n')
 }
 
